@@ -272,6 +272,30 @@ def run():
         raise ExtractError("BuildEngine taskIsComplete: signature update / value comparison")
     engine_used = [eng[i1:i1 + 40], eng[i2:i2 + 60], eng[i3:i3 + 80]]
     b = lambda x: "true" if x else "false"
+    # manifest self-regeneration (executeNinjaBuildCommand): at most two iterations; the first brings the manifest
+    # up to date and reloads it when <condition>
+    drv = function_body(src, r"int\s+commands::executeNinjaBuildCommand\s*\(\s*std::vector<std::string>\s+args\s*\)")
+    mloop = re.search(r"for\s*\(\s*int\s+iteration\s*=\s*0\s*;\s*iteration\s*!=\s*(\d+)\s*;\s*\+\+iteration\s*\)\s*\{", drv)
+    if not mloop:
+        raise ExtractError("executeNinjaBuildCommand: iteration loop not recognised")
+    max_iterations = int(mloop.group(1))
+    loop_body, _ = find_block(drv, mloop.end() - 1)
+    mreg = re.search(r"if\s*\(\s*autoRegenerateManifest\s*&&\s*iteration\s*==\s*0\s*\)\s*\{", loop_body)
+    if not mreg:
+        raise ExtractError("executeNinjaBuildCommand: regeneration guard not recognised")
+    reg_body, _ = find_block(loop_body, mreg.end() - 1)
+    used.append(mloop.group(0))
+    used.append(reg_body)
+    mcond = re.search(r"context\.engine\.build\(StringRef\(absManifestPath\)\);if\((.*)\)\{continue;\}$", nows(reg_body))
+    if not mcond:
+        raise ExtractError("executeNinjaBuildCommand: reload decision not recognised")
+    reload_if_any_command_ran = mcond.group(1) == "context.numBuiltCommands"
+    # the counter is bumped exactly once, on the path that actually runs a command (after every shortcut returned)
+    ia = nows(task)
+    counts_every_run = ia.count("++context.numBuiltCommands;") == 1 and src.count("numBuiltCommands") == 4 and \
+        "++context.numBuiltCommands;" in ia[ia.find("canUpdateIfNewerWithResult(result)"):]
+    tail = nows(loop_body)
+    stops_after_first = tail.endswith("if(iteration==0)break;")
     L = ["namespace LLBuild.NinjaBuild.Gen", "",
          "/-- `BuildValue::BuildValueKind` -/",
          "inductive Kind", ] + ["  | %s" % lc(k) for k, _ in kinds] + ["  deriving DecidableEq, Repr, Inhabited", "",
@@ -318,7 +342,15 @@ def run():
          "/-- input rules are registered under the key they are requested (and stored) under -/",
          "def inputRuleKeyIsRequestedKey : Bool := %s" % b(input_key_requested),
          "/-- the signature `NinjaBuildCommandRule` hands to `core::Rule` ([] = none: `core::Rule(key)`) (F56) -/",
-         "def ruleSignatureFields : List SigField := [%s]" % ", ".join("." + f for f in sig_fields), "",
+         "def ruleSignatureFields : List SigField := [%s]" % ", ".join("." + f for f in sig_fields),
+         "/-- `executeNinjaBuildCommand`: the manifest is loaded at most this many times -/",
+         "def maxIterations : Nat := %d" % max_iterations,
+         "/-- after bringing the manifest up to date in iteration 0 the driver reloads it iff `context.numBuiltCommands` is non-zero -/",
+         "def reloadIfAnyCommandRan : Bool := %s" % b(reload_if_any_command_ran),
+         "/-- `numBuiltCommands` is incremented once, on the path on which a command is actually run -/",
+         "def builtCounterCountsEveryRun : Bool := %s" % b(counts_every_run),
+         "/-- an iteration that was not cut short by the reload is the last one (`if (iteration == 0) break;`) -/",
+         "def stopsAfterUnreloadedIteration : Bool := %s" % b(stops_after_first), "",
          "end LLBuild.NinjaBuild.Gen"]
     return write_generated("NinjaBuildTables", "\n".join(L) + "\n", [(REL, "\n".join(used)), (ENGINE_REL, "\n".join(engine_used))])
 
